@@ -234,6 +234,11 @@ def e2e_run(case, observe=None, save_dir=None):
     idx = np.arange(n_inc)
     ps.prepare_load_data(idx); ps.prepare_prod_data(idx)
     ps.initialize_sequence_history()
+    for name, tr in (case.get("trafo_random") or {}).items():
+        # a transformer that fails by itself (drawn inside the increment) with a fixed repair time, possibly shorter than a step
+        b_ = ps.get_comp(name)
+        b_.fail_rate_per_year = float(tr["rate"])
+        b_.repair_time_dist = net.FixedDist(float(F(tr["rep"])))
     cb = make_callback(case["faults"], dt)
     orig_ush = ps.update_sequence_history
     orig_slc = ps.set_load_and_cost
@@ -305,6 +310,20 @@ def gen_e2e(rng, n, kinds=("line", "trafo"), repeat=False):
         if repeated and not spec.get("mg"):
             spec["mg"] = {"host": [0, rng.randrange(len(spec["feeders"][0]["parent"]))], "mode": rng.choice(["survival", "full", "limited"]),
                           "discon": rng.random() < 0.5, "n": 2, "battery": {"p": "1", "q": "1", "e": "2", "smin": "1/10", "smax": "1", "eta": "1"}}
+        if len(cases) % 6 == 0:
+            # targeted: two or three V2G parks of different sizes in one network, cut off from the feed long enough for the smaller ones
+            # to run empty (their interruption is completed while the outage goes on)
+            fd = spec["feeders"][0]
+            while len(fd["parent"]) < 3:
+                fd["parent"].append(rng.randrange(len(fd["parent"])))
+                for key, v in (("sw", 1), ("cust", 3), ("load", "1/20"), ("cost", 2)):
+                    fd[key].append(v)
+                if fd.get("cap"):
+                    fd["cap"].append(None)
+                if fd.get("qload"):
+                    fd["qload"].append("1/40")
+            idx = rng.sample(range(len(fd["parent"])), rng.choice([2, 3]))
+            fd["ev"] = {str(i): {"hours": list(range(24)), "table": [str(v_)] * 24, "v2g": True} for i, v_ in zip(idx, [1, 6, 3])}
         if len(cases) % 6 == 4:
             case["unit"] = [2, 1, 4, 2, 2, 1][(len(cases) // 6) % 6]          # the run's time unit is not hours (minutes, seconds, days in turn)
         distbat = len(cases) % 5 == 2
@@ -322,6 +341,16 @@ def gen_e2e(rng, n, kinds=("line", "trafo"), repeat=False):
             while rng.random() < 0.5 and spec["feeders"][0]["parent"][up] >= 0:
                 up = spec["feeders"][0]["parent"][up]
             case["faults"].setdefault(str(rng.randint(1, 3)), []).append(["line", f"F0L{up}", "3"])
+        if repeat and len(cases) % 6 == 2 and not case.get("iters"):
+            # targeted: a load point whose transformer fails by itself in (almost) every increment and is back within the same
+            # increment (repair time shorter than the step), in a system that is otherwise quiet for a while; later a line fault
+            b0 = rng.choice([b.name for b in ps.buses if b.name != "B0" and b.name.startswith("F")])
+            case["trafo_random"] = {b0: {"rate": 1e9, "rep": str(dt / 2)}}
+            case["faults"] = {str(rng.randint(5, 7)): [["line", rng.choice([l.name for l in ps.lines if not l.is_backup]), "2"]]}
+            case["n_inc"] = max(case["n_inc"], 10)
+        if len(cases) % 6 == 0 and "line" in kinds:
+            case["faults"] = {str(rng.randint(1, 2)): [["line", "F0L0", "8"]]}
+            case["n_inc"] = max(case["n_inc"], 12)
         if case.get("unit") and "line" in kinds:
             case["faults"].setdefault(str(rng.randint(1, 3)), []).append(["line", "F0L0", "2"])       # something is shed for sure
         if repeat and len(cases) % 4 == 1:
